@@ -310,7 +310,7 @@ func checkSpatial(c spatialCase) *vk.Failure {
 }
 
 func TestSpatial(t *testing.T) {
-	vk.Run(t, "spatial", vk.Opts{Quick: 5000, Thorough: 150000, NoCrumb: true}, func(t *rapid.T) spatialCase {
+	vk.Run(t, "spatial", vk.Opts{Quick: 10000, Thorough: 150000, NoCrumb: true}, func(t *rapid.T) spatialCase {
 		return spatialCase{
 			N:    vk.Dim(t, "n", 2, 40, 4, 6),
 			DC:   rapid.SampledFrom([]int{dcTies, dcDyadic, dcGauss}).Draw(t, "dc"),
@@ -462,7 +462,7 @@ func checkMDS(c mdsCase) *vk.Failure {
 }
 
 func TestMDS(t *testing.T) {
-	vk.Run(t, "mds", vk.Opts{Quick: 2500, Thorough: 80000, NoCrumb: true}, func(t *rapid.T) mdsCase {
+	vk.Run(t, "mds", vk.Opts{Quick: 5000, Thorough: 80000, NoCrumb: true}, func(t *rapid.T) mdsCase {
 		return mdsCase{
 			N:       vk.Dim(t, "n", 2, 24, 3, 5),
 			D:       rapid.IntRange(1, 4).Draw(t, "d"),
